@@ -78,7 +78,7 @@ func ToFunction(fn any) (Function, error) {
 // validateFunc verifies that the input reflect value represents a
 // valid FHIRPath function. If not, it returns an error.
 func validateFunc(rv reflect.Value) error {
-	if rv.Kind() != reflect.Func {
+	if rv.Kind() != reflect.Func || rv.IsNil() {
 		return errNotFunc
 	}
 	errs := []error{}
